@@ -13,6 +13,8 @@ every line number changes).  Each variant rewrites every applicable site of ever
   tempvar    A[i] = expr / return expr ->  _t = expr; A[i] = _t / _r = expr; return _r
   comp2loop  x = [E(v) for v in IT]   ->  x = []; for v_ in IT: x.append(E(v_))
   ternary    if c: x = a else: x = b  ->  x = a if c else b
+  commute    a * b -> b * a,  x + 1 -> 1 + x   (no string / list operand)
+  fstring    'text {0}'.format(a)     ->  f'text {a}'
   rename     every function-level local renamed (tools/alpha_rename.py, applied to the sources directly)
 
 usage: python -m emdverif.mechvar list | write <kind> <dir>   (writes <dir>/emd/*.py, for confirmation with the pinned
@@ -25,7 +27,7 @@ import sys
 REPO = os.environ.get('EMD_VERIF_REPO', '/repo')
 FILES = ['emd/sift.py', 'emd/spectra.py', 'emd/cycles.py', 'emd/_cycles_support.py', 'emd/utils.py',
          'emd/support.py', 'emd/logger.py']
-KINDS = ['unparse', 'swapif', 'flipcmp', 'augexpand', 'notnot', 'rename', 'unelse', 'demorgan', 'npfunc', 'tempvar', 'comp2loop', 'ternary']
+KINDS = ['unparse', 'swapif', 'flipcmp', 'augexpand', 'notnot', 'rename', 'unelse', 'demorgan', 'npfunc', 'tempvar', 'comp2loop', 'ternary', 'commute', 'fstring']
 
 MIRROR = {ast.Lt: ast.Gt, ast.Gt: ast.Lt, ast.LtE: ast.GtE, ast.GtE: ast.LtE, ast.Eq: ast.Eq, ast.NotEq: ast.NotEq,
           ast.Is: ast.Is, ast.IsNot: ast.IsNot}
@@ -218,7 +220,61 @@ class Ternary(ast.NodeTransformer):
         return node
 
 
-TRANSFORMERS = {'tempvar': TempVar, 'comp2loop': Comp2Loop, 'ternary': Ternary, 'unelse': UnElse, 'npfunc': NpFunc, 'demorgan': DeMorgan, 'unparse': None, 'swapif': SwapIf, 'flipcmp': FlipCmp, 'augexpand': AugExpand, 'notnot': NotNot}
+class Commute(ast.NodeTransformer):
+    """a * b -> b * a  (no string / list / tuple literal operand);   x + 1 -> 1 + x  (numeric literal operand)"""
+    def visit_BinOp(self, node):
+        self.generic_visit(node)
+        lit = (ast.List, ast.Tuple, ast.JoinedStr, ast.ListComp, ast.Dict, ast.Set)
+
+        def strlike(x):
+            return isinstance(x, lit) or (isinstance(x, ast.Constant) and isinstance(x.value, (str, bytes)))
+
+        def num(x):
+            return isinstance(x, ast.Constant) and isinstance(x.value, (int, float)) and not isinstance(x.value, bool)
+        if isinstance(node.op, ast.Mult) and not strlike(node.left) and not strlike(node.right):
+            return ast.BinOp(left=node.right, op=ast.Mult(), right=node.left)
+        if isinstance(node.op, ast.Add) and (num(node.left) != num(node.right)):
+            return ast.BinOp(left=node.right, op=ast.Add(), right=node.left)
+        return node
+
+
+class FString(ast.NodeTransformer):
+    """'text {0} {1}'.format(a, b)  ->  f'text {a} {b}'   (plain positional fields only)"""
+    def visit_Call(self, node):
+        self.generic_visit(node)
+        f = node.func
+        if isinstance(f, ast.Attribute) and f.attr == 'format' and isinstance(f.value, ast.Constant) \
+                and isinstance(f.value.value, str) and not node.keywords \
+                and not any(isinstance(a, ast.Starred) for a in node.args):
+            import string
+            try:
+                parts = list(string.Formatter().parse(f.value.value))
+            except ValueError:
+                return node
+            vals = []
+            auto = 0
+            for text, field, spec, conv in parts:
+                if text:
+                    vals.append(ast.Constant(value=text))
+                if field is None:
+                    continue
+                if spec or conv:
+                    return node
+                if field == '':
+                    idx = auto
+                    auto += 1
+                elif field.isdigit():
+                    idx = int(field)
+                else:
+                    return node
+                if idx >= len(node.args):
+                    return node
+                vals.append(ast.FormattedValue(value=node.args[idx], conversion=-1, format_spec=None))
+            return ast.JoinedStr(values=vals)
+        return node
+
+
+TRANSFORMERS = {'commute': Commute, 'fstring': FString, 'tempvar': TempVar, 'comp2loop': Comp2Loop, 'ternary': Ternary, 'unelse': UnElse, 'npfunc': NpFunc, 'demorgan': DeMorgan, 'unparse': None, 'swapif': SwapIf, 'flipcmp': FlipCmp, 'augexpand': AugExpand, 'notnot': NotNot}
 
 
 def overrides(kind, repo=None, sources=None):
